@@ -68,9 +68,68 @@ def filter_case(case):
     return dict(reproduced=bool(violated), violated=violated)
 
 
+def call_notifiers_case(case):
+    """C02: one assignment = one round of handler calls: trait-level handlers first, then object-level ones, in
+    registration order, each once, with (object, name, old, new); handlers added or removed during the round do not change
+    who is called in it; a failing handler (exceptions re-raised) stops the round; with notifications disabled nobody runs."""
+    from traits.api import HasTraits, Int, push_exception_handler, pop_exception_handler
+    violated = []
+
+    class A(HasTraits):
+        x = Int(0)
+
+    def run(setup, expect, label, reraise=False):
+        a = A()
+        log = []
+        setup(a, log)
+        push_exception_handler(lambda *args: None, reraise_exceptions=reraise)
+        try:
+            try:
+                a.x = 1
+            except ZeroDivisionError:
+                log.append("raised")
+        finally:
+            pop_exception_handler()
+        if log != expect:
+            violated.append("%s: handler calls %r, expected %r" % (label, log, expect))
+
+    def basic(a, log):
+        a.on_trait_change(lambda o, n, old, new: log.append(("any1", n, old, new)))            # object-level (anytrait)
+        a.on_trait_change(lambda o, n, old, new: log.append(("x1", n, old, new)), "x")         # trait-level
+        a.on_trait_change(lambda o, n, old, new: log.append(("x2", n, old, new)), "x")
+        a.on_trait_change(lambda o, n, old, new: log.append(("any2", n, old, new)))
+    run(basic, [("x1", "x", 0, 1), ("x2", "x", 0, 1), ("any1", "x", 0, 1), ("any2", "x", 0, 1)], "order and arguments")
+
+    def mutating(a, log):
+        late = lambda o, n, old, new: log.append("late")
+        second = lambda o, n, old, new: log.append("second")
+
+        def first(o, n, old, new):
+            log.append("first")
+            a.on_trait_change(late, "x")                    # added during the round: not called in it
+            a.on_trait_change(second, "x", remove=True)     # removed during the round: still called in it
+        a.on_trait_change(first, "x")
+        a.on_trait_change(second, "x")
+    run(mutating, ["first", "second"], "handlers added / removed during the round")
+
+    def failing(a, log):
+        def bad(o, n, old, new):
+            log.append("bad")
+            raise ZeroDivisionError("handler fails")
+        a.on_trait_change(bad, "x")
+        a.on_trait_change(lambda o, n, old, new: log.append("after"), "x")
+    run(failing, ["bad", "raised"], "a failing handler stops the round (exceptions re-raised)", reraise=True)
+
+    def disabled(a, log):
+        a.on_trait_change(lambda o, n, old, new: log.append("called"), "x")
+        a._trait_change_notify(False)
+    run(disabled, [], "notifications disabled")
+    return dict(reproduced=bool(violated), violated=violated)
+
+
 def main():
     case = json.loads(sys.stdin.read())
-    out = {"filter": filter_case}[case["family"]](case)
+    out = {"filter": filter_case, "call_notifiers": call_notifiers_case}[case["family"]](case)
     print(json.dumps(out, default=repr))
 
 
